@@ -257,16 +257,13 @@ RCP<const Set> Interval::set_union(const RCP<const Set> &o) const
 RCP<const Set> Interval::set_complement(const RCP<const Set> &o) const
 {
     if (is_a<Interval>(*o)) {
+        // o \ this = (o below this) U (o above this); intersecting with o
+        // keeps the pieces inside o also when the intervals do not overlap
         set_set cont;
-        const Interval &other = down_cast<const Interval &>(*o);
-        if (eq(*max({start_, other.start_}), *start_)) {
-            cont.insert(interval(other.get_start(), start_,
-                                 other.get_left_open(), not left_open_));
-        }
-        if (eq(*min({end_, other.end_}), *end_)) {
-            cont.insert(interval(end_, other.get_end(), not right_open_,
-                                 other.get_right_open()));
-        }
+        cont.insert(o->set_intersection(
+            interval(NegInf, start_, true, not left_open_)));
+        cont.insert(
+            o->set_intersection(interval(end_, Inf, not right_open_, true)));
         return SymEngine::set_union(cont);
     }
     return SymEngine::set_complement_helper(rcp_from_this_cast<const Set>(), o);
